@@ -115,8 +115,12 @@ def parseOp (toks : List String) : Option Op :=
 def runMonitors (rep : Report) (ln : Nat) (pre : St) (op : Op) (out : Out) (post : St) : Report :=
   let rep := (c13_all pre op out post).foldl (fun rep (n, ok) =>
     if ok then rep else { rep.msg s!"MONITOR property=C13 clause={n} line={ln}" with monitorFails := rep.monitorFails + 1 }) rep
-  (c14_all pre op out post).foldl (fun rep (n, ok) =>
+  let rep := (c14_all pre op out post).foldl (fun rep (n, ok) =>
     if ok then rep else { rep.msg s!"MONITOR property=C14 clause={n} line={ln}" with monitorFails := rep.monitorFails + 1 }) rep
+  -- C16 ("no accepted update can make a later RPC panic or use a closed pool"): GCPMultiEndpoint looks up the pool of
+  -- Current() without a check; that endpoint must be one of the MultiEndpoint's list (the premise of GME.rpc_total)
+  if c13_mem post then rep
+  else { rep.msg s!"MONITOR property=C16 clause=current_names_a_listed_endpoint line={ln}" with monitorFails := rep.monitorFails + 1 }
 
 /-- interesting situations reached on the implementation trace (evidence counters) -/
 def interesting (rep : Report) (pre : St) (op : Op) (post : St) : Report :=
